@@ -63,22 +63,171 @@ def _fn(FA, base, name):
 
 
 PACKED = [
-    # name, props, word bits, fields, largest in-block count, readers(step), abs readers, writers(step as abs shl), abs writers
+    # the packed word lives in field `field` of `owner`; readers and writers are found by dataflow from / into that field
     {'name': 'RSNarrow block record', 'props': ['C06'], 'word': 64, 'fields': 7, 'max_count': 7 * 64, 'super_bits': 0,
-     'step_readers': [('bitvector::rs_narrow::RSNarrow', 'sub_block_rank')], 'super_readers': [],
-     'step_writers': [('bitvector::rs_narrow::RSNarrow', 'new')], 'super_writers': []},
+     'owner': 'bitvector::rs_narrow::RSNarrow', 'field': 'block_rank_pairs'},
     {'name': 'RSWide superblock record', 'props': ['C06', 'C03'], 'word': 128, 'fields': 7, 'max_count': 7 * 512, 'super_bits': 44,
-     'step_readers': [('bitvector::rs_wide::RSWide', 'sub_block_rank')], 'super_readers': [('bitvector::rs_wide::RSWide', 'superblock_rank')],
-     'step_writers': [('bitvector::rs_wide::RSWide', 'new')], 'super_writers': [('bitvector::rs_wide::RSWide', 'new')]},
+     'owner': 'bitvector::rs_wide::RSWide', 'field': 'superblock_metadata'},
     {'name': 'SuperblockPlain record', 'props': ['C05', 'C01', 'C02'], 'word': 128, 'fields': 7, 'max_count': 7 * 512, 'super_bits': 44,
-     'step_readers': [('qvector::rs_qvector::rs_support_plain::SuperblockPlain', 'get_rank'),
-                      ('qvector::rs_qvector::rs_support_plain::SuperblockPlain', 'get_block_counter'),
-                      ('qvector::rs_qvector::rs_support_plain::SuperblockPlain', 'block_predecessor')],
-     'super_readers': [('qvector::rs_qvector::rs_support_plain::SuperblockPlain', 'get_rank'),
-                       ('qvector::rs_qvector::rs_support_plain::SuperblockPlain', 'get_superblock_counter')],
-     'step_writers': [('qvector::rs_qvector::rs_support_plain::SuperblockPlain', 'set_block_counters')],
-     'super_writers': [('qvector::rs_qvector::rs_support_plain::SuperblockPlain', 'new')]},
+     'owner': 'qvector::rs_qvector::rs_support_plain::SuperblockPlain', 'field': 'counters'},
 ]
+
+
+def _shift_consts(F, rv, prof, which):
+    """Record the constants of one shift: absolute amount, or the per-field multiplier inside a computed amount."""
+    amt = strip_casts(norm(F.operand_term(rv['b'])))
+    if amt[0] == 'const':
+        if amt[1] != 0:   # a shift by a folded 0 (field #0 through a helper) moves nothing
+            prof['abs_' + which].add(amt[1])
+        return
+    for st in subterms(amt):
+        if isinstance(st, tuple) and st and st[0] == 'bin' and st[1] == 'Mul':
+            for x in (st[2], st[3]):
+                if x[0] == 'const':
+                    prof['step_' + which].add(x[1])
+        if isinstance(st, tuple) and st and st[0] == 'bin' and st[1] == 'Shl' and st[3][0] == 'const':
+            prof['step_' + which].add(1 << st[3][1])
+
+
+def _mentions_field(f, field):
+    _cache = f.setdefault('_mentions', {})
+    k = field
+    if k not in _cache:
+        hit = False
+        for b in f['blocks']:
+            for s in b['s']:
+                if place_has_field(s['lhs'], field) or any('p' in o and place_has_field(o['p'], field) for o in rv_operands(s['rv'])):
+                    hit = True
+            t = b['t']
+            if t['k'] == 'call' and (place_has_field(t['dest'], field) or any('p' in a and place_has_field(a['p'], field) for a in t['args'])):
+                hit = True
+        _cache[k] = hit
+    return _cache[k]
+
+
+def record_profile(FA, owner, field):
+    """Shift / mask constants applied to values read from `owner.field` (readers) and used to compute values stored into
+    it (writers), over every library function with its private helpers inlined."""
+    prof = {'abs_shl': set(), 'abs_shr': set(), 'step_shl': set(), 'step_shr': set(), 'masks': set(),
+            'reader_fns': set(), 'writer_fns': set()}
+    adt = FA.adts.get(owner) or {}
+    fidx = None
+    for i, fl in enumerate((adt.get('fields') or [])):
+        if (fl.get('name') if isinstance(fl, dict) else fl) == field:
+            fidx = i
+    oshort = owner.split('::')[-1]
+
+    def seed(F):
+        def pred(p):
+            if not place_has_field(p, field):
+                return False
+            ty = F.locals[p['l']]
+            first = next((e for e in p['proj'] if e != '*'), None)
+            if isinstance(first, dict) and first.get('f') == field:
+                return oshort in ty or ty in ('Self', '&Self', '&mut Self')
+            return True
+        return pred
+    for f in FA.lib_fns(include_closures=False):
+        G = FA.inlined(f)
+        if not _mentions_field(G, field) and not any(s.get('rv', {}).get('k') == 'agg' and s['rv']['kind'].get('adt') == owner
+                                                      for b in G['blocks'] for s in b['s']):
+            continue
+        F = FA.fn(G)
+        F.dom()
+        pred = seed(F)
+        # ---- readers
+        tainted = forward_taint(F, pred)
+
+        def op_t(o):
+            return bool(o) and 'p' in o and (o['p']['l'] in tainted or pred(o['p']))
+        for bi, b in enumerate(F.blocks):
+            if bi not in F.reach:
+                continue
+            for s in b['s']:
+                rv = s.get('rv')
+                if not rv or rv['k'] != 'bin' or any(m.startswith('debug_assert') for m in s.get('macros', [])):
+                    continue
+                op = rv['op'].replace('Unchecked', '').replace('WithOverflow', '')
+                if op == 'Shr' and op_t(rv['a']):
+                    _shift_consts(F, rv, prof, 'shr')
+                    prof['reader_fns'].add(fn_key(f))
+                if op == 'BitAnd' and (op_t(rv['a']) or op_t(rv['b'])):
+                    for o in (rv['a'], rv['b']):
+                        ot = strip_casts(norm(F.operand_term(o)))
+                        if isinstance(ot, tuple) and ot and ot[0] == 'const' and isinstance(ot[1], int):
+                            v = ot[1]
+                            if v > 3 and (v & (v + 1)) == 0:
+                                prof['masks'].add(v)
+                                prof['reader_fns'].add(fn_key(f))
+        # ---- writers
+        starts = []
+        for bi, b in enumerate(F.blocks):
+            if bi not in F.reach:
+                continue
+            for s in b['s']:
+                rv = s['rv']
+                if s['lhs']['proj'] and pred(s['lhs']):
+                    for o in rv_operands(rv):
+                        if 'p' in o:
+                            starts.append(o['p']['l'])
+                if s['lhs']['proj'] and s['lhs']['proj'][0] == '*' and s['lhs']['l'] in tainted and not pred(s['lhs']):
+                    # store through a pointer obtained from the field (`for w in self.counters.iter_mut() { *w |= .. }`)
+                    for o in rv_operands(rv):
+                        if 'p' in o:
+                            starts.append(o['p']['l'])
+                if rv['k'] == 'agg' and rv['kind'].get('adt') == owner and fidx is not None and fidx < len(rv['ops']):
+                    o = rv['ops'][fidx]
+                    if 'p' in o:
+                        starts.append(o['p']['l'])
+            t = b['t']
+            if t['k'] == 'call' and 'fn' in t['f'] and t['f']['fn']['name'] in CONTAINER_WRITES and t['args'] and 'p' in t['args'][0]:
+                a0 = t['args'][0]['p']
+                ok = pred(a0)
+                ds = [d for d in F.defs.get(a0['l'], []) if d[0] in F.reach]
+                if len(ds) == 1 and ds[0][1] == 'assign' and ds[0][2]['k'] == 'ref' and pred(ds[0][2]['p']):
+                    ok = True
+                if ok:
+                    for a in t['args'][1:]:
+                        if 'p' in a:
+                            starts.append(a['p']['l'])
+        if starts:
+            S = backward_slice(F, starts)
+            # closures the stored value is produced by (`sbc.map(|c| (c as u128) << 84)`): their shifts belong to the writer
+            for l in list(S):
+                for d in F.defs.get(l, []):
+                    if d[1] == 'assign' and d[2]['k'] == 'agg' and 'closure' in d[2]['kind']:
+                        for cg in FA.with_closures(FA.fns.get(d[2]['kind']['closure']) or {'blocks': [], 'path': ''}):
+                            if not cg.get('blocks'):
+                                continue
+                            CF = FA.fn(FA.inlined(cg))
+                            CF.dom()
+                            for cb in (CF.blocks[i] for i in sorted(CF.reach)):
+                                for cs in cb['s']:
+                                    crv = cs['rv']
+                                    if crv['k'] == 'bin' and crv['op'].replace('Unchecked', '').replace('WithOverflow', '') == 'Shl':
+                                        lt = strip_casts(norm(CF.operand_term(crv['a'])))
+                                        if lt[0] != 'const':
+                                            _shift_consts(CF, crv, prof, 'shl')
+                                            prof['writer_fns'].add(fn_key(f))
+            for bi, b in enumerate(F.blocks):
+                if bi not in F.reach:
+                    continue
+                for s in b['s']:
+                    rv = s['rv']
+                    if rv['k'] != 'bin' or any(m.startswith('debug_assert') or m.startswith('assert') for m in s.get('macros', [])):
+                        continue
+                    op = rv['op'].replace('Unchecked', '').replace('WithOverflow', '')
+                    if op == 'Shl' and (s['lhs']['l'] in S or F.struct_root(s['lhs']['l']) in S):
+                        lt = strip_casts(norm(F.operand_term(rv['a'])))
+                        if lt[0] == 'const':
+                            continue   # `1 << k` builds a mask or a size, not a field position
+                        _shift_consts(F, rv, prof, 'shl')
+                        prof['writer_fns'].add(fn_key(f))
+    return prof
+
+
+def _keep_prefetch_new(g):
+    return default_inline_policy(g) and 'PrefetchSupport' not in g['path']
 
 
 def rule_LAY(FA):
@@ -94,17 +243,18 @@ def rule_LAY(FA):
             out.append(Inst('R-LAY', key, 'ok', FA.adts[adt]['span'], 'size %d, align %d' % (size, align), props, sample=lay))
         else:
             out.append(Inst('R-LAY', key, 'violation', FA.adts[adt]['span'], 'layout is size %d / align %d, expected %d / %d (one cache line)' % (lay['size'], lay['align'], size, align), props, sample=lay))
-    # cast_to_u64_slice: words per line constant == size_of(DataLine)/8
-    cf = FA.fns.get('bitvector::cast_to_u64_slice')
+    # raw u64 view of the line array (cast_to_u64_slice): words per line constant == size_of(DataLine)/8.  The function is
+    # found by what it does (slice::from_raw_parts::<u64> over a DataLine buffer), not by its name.
     key = 'R-LAY|a|cast_to_u64_slice'
     props = ['C04', 'C08']
-    if cf is None:
-        out.append(Inst('R-LAY', key, 'violation', '', 'function not found (anchor lost)', props))
-    else:
+    views = []
+    for cf in FA.lib_fns():
+        if not cf['path'].startswith('bitvector'):
+            continue
         F = FA.fn(cf)
-        okc = None
         for bi, t in F.calls():
-            if t['f']['fn']['name'] == 'from_raw_parts':
+            fn = t['f']['fn']
+            if fn['name'] == 'from_raw_parts' and [g for g in fn.get('gargs', []) if not g.startswith("'")] == ['u64'] and len(t['args']) == 2:
                 ln = norm(F.operand_term(t['args'][1]))
                 mult = None
                 for st in subterms(ln):
@@ -114,55 +264,37 @@ def rule_LAY(FA):
                                 mult = x[1]
                     if isinstance(st, tuple) and st and st[0] == 'bin' and st[1] in ('Mul', 'Shl') and st[3][0] == 'const':
                         mult = st[3][1] if st[1] == 'Mul' else 1 << st[3][1]
+                    if isinstance(st, tuple) and st and st[0] == 'bin' and st[1] == 'Mul' and st[2][0] == 'const':
+                        mult = st[2][1]
                 lay = (FA.layouts.get('bitvector::DataLine') or {}).get('layout') or {}
-                okc = (mult is not None and lay.get('size') == mult * 8, mult, lay.get('size'), t['line'])
-        if okc is None:
-            out.append(Inst('R-LAY', key, 'violation', cf['span'], 'from_raw_parts call not found (anchor lost)', props))
-        elif okc[0]:
+                views.append((mult is not None and lay.get('size') == mult * 8, mult, lay.get('size'), t['line']))
+    if not views:
+        out.append(Inst('R-LAY', key, 'note', '', 'no slice::from_raw_parts::<u64> view of the line array in bitvector (nothing to check)', props))
+    for okc in views:
+        if okc[0]:
             out.append(Inst('R-LAY', key, 'ok', okc[3], 'u64 view has len * %d words and DataLine is %d bytes' % (okc[1], okc[2]), props))
         else:
             out.append(Inst('R-LAY', key, 'violation', okc[3], 'u64 view claims len * %s words but a DataLine holds %s bytes: the raw view reads outside the allocation' % (okc[1], okc[2]), props))
     # (b) packed counters
     for rec in PACKED:
-        props = rec['props'] + ['C14'] if False else rec['props']
-        profs = {}
-        missing = []
-        for role in ('step_readers', 'super_readers', 'step_writers', 'super_writers'):
-            for base, name in rec[role]:
-                f = _fn(FA, base, name)
-                if f is None:
-                    missing.append('%s::%s' % (base, name))
-                else:
-                    profs[(base, name)] = shift_profile(FA, f)
+        props = rec['props']
         key = 'R-LAY|b|%s' % rec['name']
-        if missing:
-            out.append(Inst('R-LAY', key, 'violation', '', 'functions not found (anchor lost): %s' % ', '.join(missing), props))
+        if rec['owner'] not in FA.adts:
+            out.append(Inst('R-LAY', key, 'violation', '', 'type %s not found (anchor lost)' % rec['owner'], props))
             continue
+        p = record_profile(FA, rec['owner'], rec['field'])
         problems = []
-        rsteps = set()
-        masks = set()
-        for k in rec['step_readers']:
-            p = profs[k]
-            st = p['step_shr'] | ({x for x in p['abs_shr'] if x < 40} if not p['step_shr'] else set())
-            rsteps |= st
-            masks |= p['masks']
-            if not st:
-                problems.append('%s: no per-field shift found' % k[1])
-            if not p['masks']:
-                problems.append('%s: no field mask found' % k[1])
-        wsteps = set()
-        for k in rec['step_writers']:
-            p = profs[k]
-            st = p['step_shl'] | {x for x in p['abs_shl'] if x < 40}
-            wsteps |= st
-            if not st:
-                problems.append('%s: no per-field shift found' % k[1])
-        rsuper = set()
-        for k in rec['super_readers']:
-            rsuper |= {x for x in profs[k]['abs_shr'] if x >= 40}
-        wsuper = set()
-        for k in rec['super_writers']:
-            wsuper |= {x for x in profs[k]['abs_shl'] if x >= 40}
+        rsteps = p['step_shr'] | {x for x in p['abs_shr'] if x < 40}
+        masks = p['masks']
+        if not rsteps:
+            problems.append('no per-field shift applied to a value read from `%s`' % rec['field'])
+        if not masks:
+            problems.append('no field mask applied to a value read from `%s`' % rec['field'])
+        wsteps = p['step_shl'] | {x for x in p['abs_shl'] if x < 40}
+        if not wsteps:
+            problems.append('no per-field shift in the computation of the values stored into `%s`' % rec['field'])
+        rsuper = {x for x in p['abs_shr'] if x >= 40}
+        wsuper = {x for x in p['abs_shl'] if x >= 40}
         if len(rsteps) != 1:
             problems.append('readers disagree on the field width: %s' % sorted(rsteps))
         if len(wsteps) != 1:
@@ -189,7 +321,8 @@ def rule_LAY(FA):
                 if rec['fields'] * w > rec['word']:
                     problems.append('%d fields of %d bits do not fit a %d-bit word' % (rec['fields'], w, rec['word']))
         sample = {'field_bits': w, 'reader_steps': sorted(rsteps), 'writer_steps': sorted(wsteps), 'masks': sorted(masks),
-                  'super_shift_readers': sorted(rsuper), 'super_shift_writers': sorted(wsuper)}
+                  'super_shift_readers': sorted(rsuper), 'super_shift_writers': sorted(wsuper),
+                  'reader_functions': sorted(p['reader_fns']), 'writer_functions': sorted(p['writer_fns'])}
         if problems:
             out.append(Inst('R-LAY', key, 'violation', '', '; '.join(problems), props, sample=sample))
         else:
@@ -249,8 +382,11 @@ def rule_LAY(FA):
         f = _fn(FA, base, 'new')
         if f is None:
             continue
-        for spec in FA.specs(f):
-            F = FA.fn(f, spec)
+        fi = FA.inlined(f, _keep_prefetch_new)
+        for spec in FA.specs(f, deep=True):
+            if not spec.get('WITH_PREFETCH_SUPPORT', True):
+                continue
+            F = FA.fn(fi, spec)
             for bi, t in F.calls():
                 if t['f']['fn']['name'] == 'new' and 'PrefetchSupport' in t['f']['fn']['path'] and len(t['args']) == 2:
                     k = norm(F.operand_term(t['args'][1]))
@@ -271,8 +407,9 @@ def _p2(n):
 def rule_TAB(FA):
     props = ['C17']
     tab = None
-    for k, v in FA.consts.items():
-        if k.endswith('K_SELECT_IN_BYTE') and isinstance(v['val'], list):
+    # the table is recognised by its shape (a [u8; 2048] constant in utils), whatever it is called
+    for k, v in sorted(FA.consts.items()):
+        if isinstance(v['val'], list) and len(v['val']) == 2048 and 'utils' in k:
             tab = v['val']
     if tab is None or len(tab) != 2048:
         return [Inst('R-TAB', 'R-TAB|K_SELECT_IN_BYTE', 'violation', '', 'table not found or not 2048 entries (anchor lost)', props)]
@@ -418,7 +555,8 @@ def rule_SMP(FA):
     wr = _fn(FA, base, 'new')
     if rd is None or wr is None:
         return [Inst('R-SMP', 'R-SMP|RSSupportPlain select samples', 'violation', '', 'select_block / new not found (anchor lost)', props)]
-    R = FA.fn(rd)
+    R = FA.fn(FA.inlined(rd))
+    R.dom()
     P = ('param', rd['names'].get('3', '_3'))
     slots = []
     for b in R.blocks:
@@ -457,7 +595,7 @@ def rule_SMP(FA):
                     b0, c = _affine(a)
                     c_calls.append((fn_key(f), c, show(a), t['line'], b0[0] == 'param'))
     # writer: `if occs[symbol] % N == 0 { samples.push(..) } ... occs[symbol] += 1`
-    W = FA.fn(wr)
+    W = FA.fn(FA.inlined(wr))
     dom = W.dom()
     N_w = None
     order_ok = None
@@ -548,7 +686,9 @@ def _roots(F, operand, depth=0, seen=None):
     if l in seen or depth > 10:
         return out
     seen.add(l)
-    if l in F.names:
+    ds_l = F.defs.get(l, [])
+    is_inlined_param = len(ds_l) == 1 and ds_l[0][1] == 'assign' and 'arg_of' in F.blocks[ds_l[0][0]]['s'][ds_l[0][3]]
+    if l in F.names and not is_inlined_param:
         out.add(l)
         return out
     for d in F.defs.get(l, []):
@@ -564,6 +704,25 @@ def _roots(F, operand, depth=0, seen=None):
     return out
 
 
+def _pop_fn(FA, path, depth=0, seen=None):
+    """Does the crate function `path` compute a population count (calls count_ones/count_zeros, possibly through
+    closures and helpers)?"""
+    seen = seen if seen is not None else set()
+    if path in seen or depth > 4:
+        return False
+    seen.add(path)
+    g = FA.fns.get(path)
+    if g is None:
+        return False
+    if g['name'] in POPCALLS:
+        return True
+    for b in g['blocks']:
+        t = b['t']
+        if t['k'] == 'call' and 'fn' in t['f'] and t['f']['fn']['name'] in POPCALLS:
+            return True
+    return any(_pop_fn(FA, q, depth + 1, seen) for q in FA.callees_of(g))
+
+
 def _derives_from_popcall(F, operand, depth=0, seen=None):
     seen = seen if seen is not None else set()
     if not operand or 'p' not in operand:
@@ -574,9 +733,15 @@ def _derives_from_popcall(F, operand, depth=0, seen=None):
     seen.add(l)
     for d in F.defs.get(l, []):
         if d[1] == 'call':
-            if d[2]['f'].get('fn', {}).get('name') in POPCALLS:
+            fn = d[2]['f'].get('fn', {})
+            if fn.get('name') in POPCALLS:
+                return True
+            if fn and any(_pop_fn(F.facts, g['path']) for g in F.facts.resolve(fn)):
                 return True
         else:
+            st = F.blocks[d[0]]['s'][d[3]]
+            if 'ret_of' in st and _pop_fn(F.facts, st['ret_of']):
+                return True
             rv = d[2]
             for k in ('a', 'b'):
                 if k in rv and isinstance(rv[k], dict) and _derives_from_popcall(F, rv[k], depth + 1, seen):
@@ -596,7 +761,7 @@ def rule_HINT(FA):
         if f is None:
             out.append(Inst('R-HINT', 'R-HINT|%s::new' % base, 'violation', '', 'constructor not found (anchor lost)', props))
             continue
-        F = FA.fn(f)
+        F = FA.fn(FA.inlined(f))
         dom = F.dom()
         n = 0
         for bi, b in enumerate(F.blocks):
